@@ -341,6 +341,9 @@ def _run_entry(E, body, rr, st, gs, args, contract, first):
         E.track_pop = _specs.root_key(body) in _specs.POP_TRACK
         E.track_agree = _specs.root_key(body) in _specs.AGREE_TRACK
         E.agree_props = _specs.AGREE_TRACK.get(_specs.root_key(body))
+        # the arrays of requests the caller hands in (by value): what is scanned for each stored key
+        E.agree_arrays = tuple(a[1] for a in args if isinstance(a, tuple) and a and a[0] == 'oarr' and isinstance(a[1], tuple)) \
+            if E.track_agree else ()
         E.track_pull = _specs.root_key(body) in _specs.ITER_HOOKS and 'C16' in _specs.ITER_HOOKS[_specs.root_key(body)][0]
         ap = _specs.ASKED_ONCE.get(_specs.root_key(body))
         E.asked_props = ap
